@@ -676,3 +676,12 @@ def near_chain(owner=P1, order=(0, 1, 2)):
     return Game("near_chain(%s,%s)" % (owner[-1], "".join(map(str, order))), [owner, PR, PR, PR, PR, PR],
                 [acts, [(0.5000016, 4), (0.4999984, 5)], [(0.5000008, 4), (0.4999992, 5)], [(0.5, 4), (0.5, 5)], [(1, 4)], [(1, 5)]], [4],
                 [0, 1, 9, 3, 0, 0])
+
+
+def near_sep(owner=P1, order=(0, 1, 2)):
+    """three successors whose values are 1.2e-6 apart: just beyond the solver's tolerance (1e-6), far inside the 1e-5 window"""
+    acts = [("a", 1), ("b", 2), ("c", 3)]
+    acts = [acts[i] for i in order]
+    return Game("near_sep(%s,%s)" % (owner[-1], "".join(map(str, order))), [owner, PR, PR, PR, PR, PR],
+                [acts, [(0.5000024, 4), (0.4999976, 5)], [(0.5000012, 4), (0.4999988, 5)], [(0.5, 4), (0.5, 5)], [(1, 4)], [(1, 5)]], [4],
+                [0, 1, 9, 3, 0, 0])
